@@ -290,7 +290,10 @@ def run_job(job, scratch, clause_text=None):
     for r in results:
         desc = r.get('description', '')
         if CANARY_TEXT in desc:
-            canary = r['status']
+            # canaries of harness functions that are not the entry point are unreachable (SUCCESS);
+            # the entry point's canary must be reachable (FAILURE)
+            if canary != 'FAILURE':
+                canary = r['status']
             continue
         o = {'id': r.get('property', ''), 'text': desc, 'status': r['status'],
              'class': r.get('sourceLocation', {}).get('propertyClass', '') or r.get('property', '').split('.')[-2:-1],
@@ -326,6 +329,13 @@ def run_job(job, scratch, clause_text=None):
         job.status, job.reason = 'undecided', 'no postcondition obligation generated'
         return job
     job.failed = [o for o in job.obligations if o['status'] == 'FAILURE']
+    # obligations about the harness itself (its bounds, the layout witness) are not part of any
+    # property: when one fails the machinery is wrong -> undecided, never a violation
+    own = [o for o in job.failed if o['text'].startswith(('harness bound', 'layout witness'))]
+    if own:
+        job.status, job.reason = 'undecided', 'harness self-check failed: %s' % own[0]['text']
+        job.failed = []
+        return job
     job.status = 'fail' if job.failed else 'ok'
     return job
 
@@ -355,7 +365,10 @@ def get_trace(job):
                         t = v.get('type', '')
                         if b[0] == '1' and not ('unsigned' in t or t in ('size_t', '__CPROVER_size_t', '_Bool')):
                             val -= 1 << len(b)
-                    vals[lhs] = val
+                    if lhs.startswith('cvin_seq_'):
+                        vals.setdefault(lhs, []).append(val)
+                    else:
+                        vals[lhs] = val
         traces[r.get('property', '')] = vals
     return traces
 
@@ -479,3 +492,32 @@ def nth_clause(lines, o):
             if cnt:
                 break
     return None
+
+
+def nsdmi_to_meminit(text, classes):
+    """R-NSDMI: CBMC's C++ front end silently ignores default member initialisers (measured: members
+    stay nondeterministic).  For each listed class move every `T m = v;` of the class body into the
+    mem-initialiser list of its default constructor (adding `Cls(): m( v) {}` when the class has no
+    user-declared constructor) -- by the language rules the same initialisation.
+    classes: {name: ctor_head_regex or None}.  Returns (text, {class: [members]})."""
+    done = {}
+    for cls, ctor_rx in classes.items():
+        m = re.search(r'^(?:template<[^\n]*> )?class %s\b[^\n]*\n\{\n(.*?)^\}; // %s' % (cls, cls), text, flags=re.M | re.S)
+        if not m:
+            raise Undecided('R-NSDMI: class %s not found' % cls)
+        body = m.group(1)
+        members = re.findall(r'^( +)([\w:<> ,\[\]\*]+?)\s+(\w+) = ([^;{}]+);\n', body, flags=re.M)
+        if not members:
+            raise Undecided('R-NSDMI: class %s has no default member initialiser (rule must fire)' % cls)
+        nbody = re.sub(r'^( +)([\w:<> ,\[\]\*]+?)(\s+)(\w+) = ([^;{}]+);\n', r'\1\2\3\4;\n', body, flags=re.M)
+        inits = ', '.join('%s( %s)' % (mm[2], mm[3].strip()) for mm in members)
+        if ctor_rx is None:
+            nbody = 'public:\n   %s(): %s {}\n' % (cls, inits) + nbody
+            text = text[:m.start(1)] + nbody + text[m.end(1):]
+        else:
+            text = text[:m.start(1)] + nbody + text[m.end(1):]
+            text, n = re.subn(ctor_rx, lambda mo: mo.group(0) + ', ' + inits, text)
+            if n != 1:
+                raise Undecided('R-NSDMI: constructor of %s matched %d times' % (cls, n))
+        done[cls] = [mm[2] for mm in members]
+    return text, done
